@@ -77,7 +77,13 @@ type MTProto struct {
 	Warnings chan error
 
 	serverRequestHandlers []customHandlerFunc
+
+	// how many containers the receive loop is inside of right now (only that goroutine touches it)
+	containerDepth int
 }
+
+// maxContainerDepth: how deep msg_container may be nested in msg_container before the message is refused
+const maxContainerDepth = 4
 
 type customHandlerFunc = func(i any) bool
 
@@ -357,6 +363,15 @@ func (m *MTProto) dispatchResponse(data tl.Object) error {
 messageTypeSwitching:
 	switch message := data.(type) {
 	case *objects.MessageContainer:
+		// MTProto does not allow a container inside a container. A few levels are tolerated; deeper nesting is
+		// refused, because every level keeps a copy of everything below it: a message of n nested containers
+		// needs memory quadratic in n (a 1 MB message of 40000 levels would need tens of gigabytes)
+		if m.containerDepth >= maxContainerDepth {
+			return errors.New("containers nested too deep")
+		}
+		m.containerDepth++
+		defer func() { m.containerDepth-- }()
+
 		// every message of the container is processed; one that can't be handled is reported on its own
 		for _, v := range *message {
 			err := m.processResponse(v)
